@@ -290,28 +290,30 @@ theorem r2All_eq_ideal_nonsticky (fl : RFlags) (f : Finder) (units : List Nat) (
         | some r => simp [ih]
   exact key _ _ _ _
 
-/-- Fast path of `Symbol.match` for a global, non-sticky RegExp = generic path.  PARTIAL only because
-(1) the engines' own iteration is taken to be regexp2's FindNextMatch sweep as wrapped by goja (`r2All`); Go's
-FindAll differs (`goAll_adjacent_empty_witness`); (2) sticky+global is false for the current code
-(`fastMatch_sticky_witness`). -/
-theorem fastMatch_eq_generic_partial (fl : RFlags) (f : Finder) (units : List Nat)
-    (hg : fl.global = true) (hy : fl.sticky = false) :
+/-- `Symbol.match` of a global RegExp: optimised path = generic path, for every flag combination (sticky regexps are
+routed to the generic protocol since /repo 15617dc) and every finder.  PARTIAL only because the engines' own
+iteration is taken to be regexp2's FindNextMatch sweep as wrapped by goja (`r2All`); Go's FindAll is a different sweep
+(`goAll_adjacent_empty_witness`, known finding go-adjacent-empty). -/
+theorem fastMatch_eq_generic_partial (fl : RFlags) (f : Finder) (units : List Nat) (hg : fl.global = true) :
     (genericGlobalMatches fl f units).1 = (fastGlobalMatches fl f units).1 := by
-  rw [idealSweep_eq_generic fl f units hg]
-  simp only [fastGlobalMatches, hy]
-  exact (r2All_eq_ideal_nonsticky fl f units 0 none).symm
+  cases hy : fl.sticky with
+  | true => simp [fastGlobalMatches, hy]
+  | false =>
+    rw [idealSweep_eq_generic fl f units hg]
+    simp only [fastGlobalMatches, hy, Bool.false_eq_true, if_false]
+    exact (r2All_eq_ideal_nonsticky fl f units 0 none).symm
 
 /-- The idealised finder of /a*/ on "baa" (leftmost-longest at each start). -/
 def witnessFinder : Finder := fun i =>
   if i = 0 then some ⟨[0, 0], none⟩ else if i = 1 then some ⟨[1, 3], none⟩
   else if i = 2 then some ⟨[2, 3], none⟩ else if i = 3 then some ⟨[3, 3], none⟩ else none
 
-/-- Defect witness (known finding `fast-vs-generic:sticky-after-empty`): for /a*/gy on "baa" the generic
-protocol finds "", "aa", "" but the coded sticky filter (regexp.go:375-380, 461-466, 498-507: the next match must
-start at the END of the previous one, which an empty match never allows) stops after "". -/
-theorem fastMatch_sticky_witness :
+/-- Regression lemma for the defect repaired by /repo 15617dc: the sticky filter of the findAll wrappers (the next
+match must start at the END of the previous one) is NOT the protocol's sweep — for /a*/gy on "baa" the protocol finds
+"", "aa", "" and the coded sticky sweep stops after "".  (The coded sweep is no longer reached with sticky = true.) -/
+theorem stickySweep_prefix_witness :
     ¬ (∀ (fl : RFlags) (f : Finder) (units : List Nat), fl.global = true →
-        (genericGlobalMatches fl f units).1 = (fastGlobalMatches fl f units).1) := by
+        (genericGlobalMatches fl f units).1 = r2All fl f units 0 none fl.sticky) := by
   intro h
   have := h ⟨true, true, false⟩ witnessFinder [98, 97, 97] rfl
   revert this
@@ -331,26 +333,25 @@ theorem goAll_adjacent_empty_witness :
   revert this
   decide
 
-/-- Defect witness (known finding `fast-vs-generic:split-empty-at-previous-end`): the fast `Symbol.split`
-loop applied to the complete sweep of /a*/ over "baaac" yields "b","","c"; the generic algorithm "b","c". -/
-theorem fastSplit_witness :
+/-- Regression lemma for the defect repaired by /repo 5a3ab73: the OLD fast `Symbol.split` loop applied to the
+complete sweep of /a*/ over "baaac" yields "b","","c"; the generic algorithm "b","c". -/
+theorem fastSplit_prefix_witness :
     ¬ (∀ (f : Finder) (units : List Nat),
-        fastSplit units ((idealAll {} f units 0 none false).map (·.idx)) none = genericSplit f units false none) := by
+        fastSplitOld units ((idealAll {} f units 0 none false).map (·.idx)) none = genericSplit f units false none) := by
   intro h
   have := h witnessFinder2 [98, 97, 97, 97, 99]
   revert this
   decide
 
-/-- The fast `Symbol.split` loop WITH the one-line repair of fixes/C20-split-empty-match-at-previous-end.diff, applied
-to the complete sweep of the finder, is the generic algorithm (ECMA-262 22.2.6.14): for every leftmost finder whose
-captures exec reports unchanged (`CapsAgree`), no limit, code-unit mode.  (About the patched loop; the loop in /repo
-today is refuted by `fastSplit_witness`.) -/
-theorem fastSplitFixed_eq_generic_patched (f : Finder) (units : List Nat)
+/-- Fast path of `Symbol.split` (the loop of `stdSplitter`, /repo 5a3ab73) applied to the complete sweep of the finder
+IS the generic algorithm (ECMA-262 22.2.6.14): for every leftmost finder whose captures exec reports unchanged
+(`CapsAgree`), no limit, code-unit mode.  (With a limit / in unicode mode: exact correspondence only.) -/
+theorem fastSplit_eq_generic (f : Finder) (units : List Nat)
     (hf : Leftmost f units.length) (hc : CapsAgree f units) :
-    fastSplitFixed units ((idealAll ⟨true, false, false⟩ f units 0 none false).map (·.idx)) none
+    fastSplit units ((idealAll ⟨true, false, false⟩ f units 0 none false).map (·.idx)) none
       = genericSplit f units false none := by
   by_cases hn : units.length = 0
-  · simp only [fastSplitFixed, genericSplit, hn]
+  · simp only [fastSplit, genericSplit, hn]
     simp only [idealAll, hn]
     cases h0 : f 0 with
     | none => simp [idealAllLoop, matchAt, h0]
@@ -361,7 +362,7 @@ theorem fastSplitFixed_eq_generic_patched (f : Finder) (units : List Nat)
   · have hmain := split_main f units hf hc (units.length + 1) 0 0 [] 0 (2 * units.length + 4) (units.length + 2)
       (by omega) (by omega) (by omega) (by omega)
     have hne : (units.length == 0) = false := by simp [hn]
-    simp only [fastSplitFixed, genericSplit, hne]
+    simp only [fastSplit, genericSplit, hne]
     simp only [G, S, F, finish, idealAll] at hmain ⊢
     rw [hmain]
     rfl
